@@ -135,6 +135,46 @@ static void run_storm(int K, long long rounds) {
 static void wait_registered(int W) { for (;;) { int r; p_mutex_lock(mu); r = registered; p_mutex_unlock(mu); if (r == W) return; sched_yield(); } }
 static int wait_arrivals(int want, int ms) { int t; for (t = 0; t < ms * 10; t++) { if (__atomic_load_n(&arrived, __ATOMIC_SEQ_CST) >= want) return 1; usleep(100); } return __atomic_load_n(&arrived, __ATOMIC_SEQ_CST) >= want; }
 
+/* one condition variable used with mutex A, then - after every waiter has left - with another mutex B: each wait must release and
+ * re-acquire the mutex it was GIVEN */
+static PMutex *mu2; static int registered2, go2; static volatile int arrived2; static long long st_repair_cases;
+static void *waiter_two_mutexes(void *a) {
+	(void)a;
+	p_mutex_lock(mu); __atomic_add_fetch(&registered, 1, __ATOMIC_SEQ_CST);
+	while (!go) p_cond_variable_wait(cv_ne, mu);
+	__atomic_add_fetch(&arrived, 1, __ATOMIC_SEQ_CST); __atomic_add_fetch(&progress, 1, __ATOMIC_RELAXED);
+	p_mutex_unlock(mu);
+	while (!__atomic_load_n(&release_flag, __ATOMIC_SEQ_CST)) usleep(50);        /* phase 2 starts when nobody waits on the condition variable any more */
+	p_mutex_lock(mu2); __atomic_add_fetch(&registered2, 1, __ATOMIC_SEQ_CST);
+	while (!go2) p_cond_variable_wait(cv_ne, mu2);
+	__atomic_add_fetch(&arrived2, 1, __ATOMIC_SEQ_CST); __atomic_add_fetch(&progress, 1, __ATOMIC_RELAXED);
+	p_mutex_unlock(mu2);
+	return NULL;
+}
+static int wait_count(volatile int *c, int want, int ms) { int t; for (t = 0; t < ms * 10; t++) { if (__atomic_load_n(c, __ATOMIC_SEQ_CST) >= want) return 1; usleep(100); } return __atomic_load_n(c, __ATOMIC_SEQ_CST) >= want; }
+static void run_two_mutexes(int W) {
+	pthread_t th[MAXT]; int i, t, got = 0;
+	scen = "condvar-reused-with-second-mutex";
+	mu = p_mutex_new(); mu2 = p_mutex_new(); cv_ne = p_cond_variable_new(); registered = registered2 = 0; go = go2 = 0; arrived = 0; arrived2 = 0; release_flag = 0;
+	for (i = 0; i < W; i++) pthread_create(&th[i], NULL, waiter_two_mutexes, NULL);
+	if (!wait_count((volatile int *)&registered, W, 20000)) viol("no-progress", "waiters did not register");
+	p_mutex_lock(mu); go = 1; p_cond_variable_broadcast(cv_ne); p_mutex_unlock(mu);
+	if (!wait_count(&arrived, W, 20000)) viol("broadcast-woke-too-few", "phase 1: one broadcast with %d waiters woke only %d", W, arrived);
+	__atomic_store_n(&release_flag, 1, __ATOMIC_SEQ_CST);
+	wait_count((volatile int *)&registered2, W, 20000);
+	for (t = 0; t < 200000 && !(got = p_mutex_trylock(mu2)); t++) usleep(t < 1000 ? 10 : 100);
+	if (!got) viol("mutex-not-released-by-wait", "%d threads wait on a condition variable with mutex B (the variable was used with mutex A before): B was never released in 20 s", W);
+	else { go2 = 1; p_cond_variable_broadcast(cv_ne); p_mutex_unlock(mu2);
+	       if (!wait_count(&arrived2, W, 20000)) viol("broadcast-woke-too-few", "phase 2 (second mutex): one broadcast with %d waiters woke only %d", W, arrived2); }
+	if (__atomic_load_n(&arrived2, __ATOMIC_SEQ_CST) >= W) {
+		for (i = 0; i < W; i++) pthread_join(th[i], NULL);
+		if (!p_mutex_trylock(mu)) viol("foreign-mutex-touched", "mutex A is locked after the condition variable was waited on with mutex B only"); else p_mutex_unlock(mu);
+		if (!p_mutex_trylock(mu2)) viol("mutex-not-released", "mutex B is still locked after all waiters returned and unlocked it"); else p_mutex_unlock(mu2);
+		p_cond_variable_free(cv_ne); p_mutex_free(mu); p_mutex_free(mu2);
+	}       /* else: threads are stuck; leave everything allocated, the run ends with the violation */
+	st_repair_cases++; st_wake_cases++;
+}
+
 static void run_wake(int W, int mode) {      /* mode 0 broadcast-all, 1 signal-one, 2 mutex-held-on-return */
 	pthread_t th[MAXT]; int i;
 	mu = p_mutex_new(); cv_ne = p_cond_variable_new(); registered = 0; go = 0; tokens = 0; arrived = 0; release_flag = 0; awake_flag = 0;
@@ -187,14 +227,14 @@ int main(int argc, char **argv) {
 	vh_max_viol = 3;      /* a failing wake scenario costs 20 s of waiting: three witnesses are enough, keep the run short */
 	p_libsys_init();
 	pthread_create(&wd, NULL, wd_fn, NULL);
-	for (i = 0; i < wakes && vh_nviol < vh_max_viol; i++) { int W = 1 + (int)vh_below(&r, (uint64_t)maxw); run_wake(W, (int)(i % 4)); }
+	for (i = 0; i < wakes && vh_nviol < vh_max_viol; i++) { int W = 1 + (int)vh_below(&r, (uint64_t)maxw); if (i % 5 == 4) run_two_mutexes(W > MAXT ? MAXT : W); else run_wake(W, (int)(i % 4)); }
 	for (i = 0; i < 4 && vh_nviol < vh_max_viol; i++) run_storm(2 + (int)vh_below(&r, 5), wakes * 2);
 	for (i = 0; i < runs && vh_nviol < vh_max_viol; i++) {
 		int P = 1 + (int)vh_below(&r, (uint64_t)maxt / 2 + 1), C = 1 + (int)vh_below(&r, (uint64_t)maxt / 2 + 1), capc = 1 + (int)vh_below(&r, 4);
 		run_buffer(P, C, items / P + 1, capc, (int)(i & 1), (int)((i >> 1) & 1), (int)(i % 5 == 4));
 	}
 	p_libsys_shutdown();
-	printf("{\"ev\":\"stats\",\"buffer_runs\":%lld,\"items\":%lld,\"waits\":%lld,\"returns_with_false_predicate\":%lld,\"wake_cases\":%lld,\"concurrent_signal_rounds\":%lld,\"waiters_woken\":%lld,\"trylock_probes_during_wait\":%lld,\"buffer_runs_with_trylock_producers\":%lld,\"trylock_acquisitions\":%lld,\"viol\":%d,\"wall\":%.2f}\n",
-	       st_runs, st_items, st_waits, st_spurious_returns, st_wake_cases, st_storm_rounds, st_waiters_woken, st_trylock_probes, st_try_runs, st_try_acquisitions, vh_nviol, vh_now() - t0);
+	printf("{\"ev\":\"stats\",\"buffer_runs\":%lld,\"items\":%lld,\"waits\":%lld,\"returns_with_false_predicate\":%lld,\"wake_cases\":%lld,\"concurrent_signal_rounds\":%lld,\"waiters_woken\":%lld,\"trylock_probes_during_wait\":%lld,\"condvar_reused_with_second_mutex\":%lld,\"buffer_runs_with_trylock_producers\":%lld,\"trylock_acquisitions\":%lld,\"viol\":%d,\"wall\":%.2f}\n",
+	       st_runs, st_items, st_waits, st_spurious_returns, st_wake_cases, st_storm_rounds, st_waiters_woken, st_trylock_probes, st_repair_cases, st_try_runs, st_try_acquisitions, vh_nviol, vh_now() - t0);
 	return 0;
 }
